@@ -53,14 +53,20 @@ package nsqd
 //@   ensures[conn-closed] lp.conn != nil ==> closedConn == lp.conn
 //@   ensures[no-conn-no-error] lp.conn == nil ==> result == nil
 //@   modifies lp.state, closedConn
+//   (round 4) the calls are counted and the peers closed are collected (ghosts in zz_contracts_r4C_verif.go, grouped with closedConn)
+//@   onreturn r4CCloses := r4CCloses + 1
+//@   onreturn r4CClosedSet := setadd(r4CClosedSet, lp)
 
-// Connect: dials lp.addr; success stores a connection. The body calls lp.logf, a function-typed field:
-// the engine treats that as an opaque call, so no frame can be proved for Connect (callers lose the heap).
+// Connect: dials lp.addr; success stores a connection. The body calls lp.logf, a function-typed field: since round 4 it is
+// declared benign (zz_contracts_r4C_verif.go: it is NSQD.logf, logging only), so Connect has a frame: only lp.conn and the
+// dial record change, and a failed dial leaves the old connection value in place.
 //@ func (lp *lookupPeer) Connect() error
 //@   props C16
 //@   requires lp != nil
 //@   ensures[has-conn] result == nil ==> lp.conn != nil
 //@   ensures[dialed-own-address] dialAddr == lp.addr && result == dialErr
+//@   ensures[failed-keeps-conn] result != nil ==> lp.conn == old(lp.conn)
+//@   modifies lp.conn, dialAddr, dialErr
 
 // Command: one round trip, connecting first when the peer is not connected.
 // From C16 (dropped connections, bad replies, restarts => converge again within a few heartbeats):
@@ -87,6 +93,21 @@ package nsqd
 //@   ensures[no-command-no-reply] cmd == nil ==> result0 == nil
 //@   ensures[connect-succeeds] old(lp.state) != stateConnected && old(lp.state) != stateDisconnected && cmd == nil && dialErr == nil && wrErr == nil ==> result1 == nil
 //@   ensures[connect-then-magic] old(lp.state) != stateConnected && old(lp.state) != stateDisconnected && cmd == nil && result1 == nil ==> dialAddr == lp.addr && dialErr == nil && wrLast == nsq.MagicV1 && lp.conn != nil
+//   (round 4) the representation invariant is kept; a peer that was connected keeps its connection object (no re-dial);
+//   frame: this peer's state / connection / IDENTIFY info, the I/O record ghosts, and - through connectCallback, which reads the
+//   topic and channel maps under their read locks - the lock-guarded maps (r4CCommandFrame, zz_contracts_r4C_verif.go).
+//   The call is recorded: r4CCmdCalls / r4CLastPeer / r4CLastCmd / r4CLastCmdErr, r4CSentSet (every command handed over).
+//@   ensures[rep-kept] lp.state == stateConnected ==> lp.conn != nil
+//@   ensures[connected-keeps-conn] old(lp.state) == stateConnected ==> lp.conn == old(lp.conn)
+//@   ensures[connected-error-closed] result1 != nil && old(lp.state) == stateConnected ==> lp.state == stateDisconnected
+//@   ensures[connected-no-reregistration] old(lp.state) == stateConnected ==> r4CBuiltCalls == old(r4CBuiltCalls)
+//@   modifies lp.state, lp.conn, lp.Info, r4CCommandFrame
+//@   onreturn r4CCmdCalls := r4CCmdCalls + 1
+//@   onreturn r4CLastPeer := lp
+//@   onreturn r4CLastCmd := cmd
+//@   onreturn r4CLastCmdErr := result1
+//@   onreturn r4CCmdSawCloses := r4CCloses
+//@   onreturn r4CSentSet := setadd(r4CSentSet, cmd)
 
 // ---------------------------------------------------------------------------------------------
 // NSQD.GetTopic (C16): "A topic first created on an nsqd starts with every non-ephemeral channel its
@@ -125,12 +146,7 @@ package nsqd
 // Constructors (assumed, bodies not verified: they build disk queues, start goroutines and notify
 // the lookup loop): a fresh object with the given identity; no existing modelled state changes.
 
-// n.lookupPeers (an atomic.Value) only ever holds a []*lookupPeer (single Store in lookupLoop), so the
-// type assertion in the body cannot fail; the function only reads. Assumed (same reason as getOpts).
-//@ func (n *NSQD) lookupdHTTPAddrs() []string
-//@   trusted
-//@   modifies luAddrs
-//@   onreturn luAddrs := result
+// (n *NSQD) lookupdHTTPAddrs: verified since round 4, contract in zz_contracts_r4C_verif.go (it still records luAddrs := result).
 
 //@ func (t *Topic) Start()
 //@   props C16
